@@ -302,12 +302,14 @@ func Serve(h http.Handler, method, path string, header http.Header, body io.Read
 		rw.failErr = errors.New("serve: injected write failure")
 	}
 	func() {
+		returned := false
 		defer func() {
-			if r := recover(); r != nil {
+			if r := recover(); !returned {
 				rec.Panicked, rec.PanicValue = true, r
 			}
 		}()
 		h.ServeHTTP(rw, req)
+		returned = true
 	}()
 	rw.freeze(200)
 	declared := map[string]bool{}
